@@ -92,6 +92,44 @@ def handle (op : String) (a : Json) : Except String Json := do
     return ok (Json.mkObj [("events", toJson n), ("records", recs), ("flush", arr ((flush s).map eventJson)), ("rstore", natArr s.rstore), ("accepted", natArr s.accepted), ("dropped", natArr s.dropped),
       ("downsampled", natArr s.downsampled), ("fed", natArr s.fed),
       ("in_flight", toJson (s.samplers.length + (s.w2d.flatMap (·.2)).length + s.raw.length + s.dstore.length + s.d2r.flatten.length))]) tags.eraseDups
+  | "dreplay" =>
+    -- the driver layer: pipeline events plus join point messages (`Samples.dstep`); observable effect of a join point message =
+    -- the hand-over it put in flight (null when it is not the last worker's) and whether the store has been closed
+    let c : DCfg := ⟨⟨← getNat a "cap", ← getNat a "factor"⟩, ← getNat a "workers", ← getNat a "steps"⟩
+    let evs ← getArr a "events"
+    let mut d := dinit
+    let mut n := 0
+    let mut tags : List String := []
+    for ej in evs do
+      let e ← ej.getObjValAs? String "e"
+      let dev ← (if e == "joinpoint" then pure DEvent.joinpoint else do pure (DEvent.pipe (← parseEvent ej)))
+      match dstep c d dev with
+      | none => return Json.mkObj [("diff", Json.mkObj [("at", toJson n), ("why", Json.str "event not enabled in the model"), ("event", ej)])]
+      | some d' =>
+        let eff := match dev with
+          | .joinpoint => Json.mkObj [("handed", match (d'.s.d2r.drop d.s.d2r.length) with | [m] => natArr m | _ => Json.null), ("closed", toJson d'.closed)]
+          | .pipe pe => effect d.s d'.s pe
+        tags := (match dev with
+          | .joinpoint =>
+            if d'.stepNo == d.stepNo then "joinpoint-waiting"
+            else (if d'.closed then "last-joinpoint" else "joinpoint") ++ (if d.s.raw.isEmpty then (if d.s.dstore.isEmpty then "-nothing" else "-store-only") else (if d.s.dstore.isEmpty then "-raw-only" else "-raw-and-store"))
+          | .pipe .postprocess => if c.finished d then "tick-after-finish" else if d.s.raw.isEmpty then "tick-empty" else "tick"
+          | .pipe .deliverR => "deliverR"
+          | .pipe (.deliverU _) => "deliverU"
+          | .pipe (.ship _) => "ship"
+          | .pipe (.request ..) => if d'.s.accepted.length > d.s.accepted.length then "accepted" else "queue-full"
+          | .pipe .handover => "handover") :: tags
+        match ej.getObjVal? "obs" with
+        | .ok obs =>
+          if obs != eff then
+            return Json.mkObj [("diff", Json.mkObj [("at", toJson n), ("why", Json.str "effects differ"), ("event", ej), ("model", eff), ("impl", obs)])]
+        | .error _ => pure ()
+        d := d'
+        n := n + 1
+    let s := d.s
+    return ok (Json.mkObj [("events", toJson n), ("rstore", natArr s.rstore), ("accepted", natArr s.accepted), ("lost", natArr d.lost),
+      ("closed", toJson d.closed), ("step", toJson d.stepNo), ("downsampled", natArr s.downsampled),
+      ("in_flight", toJson (s.samplers.length + (s.w2d.flatMap (·.2)).length + s.raw.length + s.dstore.length + s.d2r.flatten.length))]) tags.eraseDups
   | "ticks" =>
     -- the firing pattern of n wake-ups from timer t: list of booleans (post-processing called at that wake-up) and the final timer
     let w ← getNat a "w"
